@@ -90,7 +90,7 @@ SETTINGS_POOL = [
     {"ignorecase": True, "parseinfo": True}, {"namechars": "_"},
 ]
 NAMES = [None, None, "A", "B", "Test"]
-SEMS = ["none", "none", "id", "tag", "default", "num"]
+SEMS = ["none", "none", "id", "tag", "default", "num", "eq"]
 
 
 class SemFault(Exception):
@@ -186,10 +186,35 @@ BUILDER_POOL = [{"basetype": "MyBase"}, {"basetype": "OtherBase"}, {"constructor
                 {"typedefs": ["Num", "Word"]}, {"synthok": False}, {"builderconfig": "MyBase"}, {"basetype": "MyBase", "synthok": False}]
 
 
-def make_sem(kind, fault):
+class EqSem(_Counting):
+    """Semantics objects that compare equal by value (as a frozen dataclass of options would) but are different objects:
+    the one passed to a call is the one whose actions must run."""
+
+    _serial = [0]
+
+    def __init__(self, fault=None):
+        super().__init__(fault)
+        EqSem._serial[0] += 1
+        self.tag = None  # set by make_sem
+
+    def __eq__(self, other):
+        return isinstance(other, EqSem)
+
+    def __hash__(self):
+        return 7
+
+    def _default(self, ast, *args, **kwargs):
+        self._hit()
+        return ["EQ", self.tag, ast]
+
+
+def make_sem(kind, fault, tag=None):
     if kind == "none":
         return None
-    return {"id": IdSem, "tag": TagSem, "default": DefaultOnlySem, "num": NumSem}[kind](fault)
+    sem = {"id": IdSem, "tag": TagSem, "default": DefaultOnlySem, "num": NumSem, "eq": EqSem}[kind](fault)
+    if kind == "eq":
+        sem.tag = tag
+    return sem
 
 
 # ------------------------------------------------------------------------------- canonical forms
@@ -374,7 +399,8 @@ def exec_op(op, H, probes=None):
 
     kind = op["op"]
     fault = op.get("fault")
-    sem = make_sem(op.get("sem", "none"), fault if fault and fault["kind"] in ("failsem", "foreign") else None)
+    sem = make_sem(op.get("sem", "none"), fault if fault and fault["kind"] in ("failsem", "foreign") else None,
+                   tag=digest_of({k: v for k, v in op.items() if k not in ("out", "h")})[:6])
     intr = None
     if fault and fault["kind"] == "interrupt":
         intr = Interrupt(fault["nth"], fault["exc"], tatsu_root())
@@ -764,10 +790,10 @@ def gen_call(rng, handles, models_only=False, allow_fault=True, focus=None):
     if allow_fault and op["op"] in ("parse", "mparse", "pparse", "compile") and rng.random() < 0.25:
         k = rng.random()
         if k < 0.4 and op["op"] != "compile":
-            op["sem"] = rng.choice(["id", "tag", "num"])
+            op["sem"] = rng.choice(["id", "tag", "num", "eq"])
             op["fault"] = {"kind": "failsem", "nth": rng.choice([1, 1, 2, 3])}
         elif k < 0.7 and op["op"] != "compile":
-            op["sem"] = rng.choice(["id", "tag", "num"])
+            op["sem"] = rng.choice(["id", "tag", "num", "eq"])
             op["fault"] = {"kind": "foreign", "nth": rng.choice([1, 1, 2, 3]), "exc": rng.choice(["KeyError", "ValueError", "TypeError", "SemFault"])}
         else:
             op["fault"] = {"kind": "interrupt", "nth": rng.choice([1, 3, 10, 30, 100, 300, 1000, 3000]),
@@ -791,7 +817,7 @@ def _pair_kw(rng, g, base_kw):
     if k < 0.3:
         return {"asmodel": True}
     if k < 0.5:
-        return {"sem": rng.choice(["id", "tag", "num"])}
+        return {"sem": rng.choice(["id", "tag", "num", "eq"])}
     if k < 0.75:
         return {"start": rng.choice(start_choices(g))}
     return {"settings": rng.choice([{"parseinfo": True}, {"ignorecase": True}, {"nameguard": False}, {"whitespace": ""}])}
@@ -819,7 +845,7 @@ def gen_pair_history(rng, handles):
     elif k < 0.7:
         base_kw = {"start": rng.choice([x for x in start_choices(g1) if x])}
     elif k < 0.85:
-        base_kw = {"sem": rng.choice(["id", "tag", "num"])}
+        base_kw = {"sem": rng.choice(["id", "tag", "num", "eq"])}
     else:
         base_kw = {"settings": rng.choice([{"parseinfo": True}, {"ignorecase": True}, {"nameguard": False}, {"whitespace": ""}])}
     seqs = []
@@ -837,7 +863,7 @@ def gen_pair_history(rng, handles):
                  "settings": dict(base_settings) if rng.random() < 0.75 else rng.choice(SETTINGS_POOL)}
             k = rng.random()
             if k < 0.2:
-                c["sem"] = rng.choice(["id", "tag", "num"])
+                c["sem"] = rng.choice(["id", "tag", "num", "eq"])
             elif k < 0.45:
                 c["builder"] = rng.choice(BUILDER_POOL)
             _HCTR[0] += 1
@@ -856,7 +882,7 @@ def gen_pair_history(rng, handles):
                       "settings": dict(base_settings) if rng.random() < 0.75 else rng.choice(SETTINGS_POOL)}
                 k = rng.random()
                 if k < 0.2:
-                    pz["sem"] = rng.choice(["id", "tag", "num"])
+                    pz["sem"] = rng.choice(["id", "tag", "num", "eq"])
                 elif k < 0.35:
                     pz["builder"] = rng.choice(BUILDER_POOL)
                 seq.append(pz)
@@ -886,10 +912,10 @@ def gen_pair_history(rng, handles):
             o = rng.choice(cands)
             k = rng.random()
             if k < 0.35:
-                o["sem"] = rng.choice(["id", "tag", "num"])
+                o["sem"] = rng.choice(["id", "tag", "num", "eq"])
                 o["fault"] = {"kind": "failsem", "nth": 1}
             elif k < 0.65:
-                o["sem"] = rng.choice(["id", "tag", "num"])
+                o["sem"] = rng.choice(["id", "tag", "num", "eq"])
                 o["fault"] = {"kind": "foreign", "nth": 1, "exc": rng.choice(["KeyError", "ValueError", "SemFault"])}
             else:
                 o["fault"] = {"kind": "interrupt", "nth": rng.choice([3, 30, 100, 300, 1000]), "exc": rng.choice(["KeyboardInterrupt", "MemoryError"])}
@@ -928,7 +954,7 @@ def gen_spec(seed: int, mode: str | None = None) -> dict:
         g = rng.choice(["typed", "typed_c", "ref", "choice", "kw", "params", "typed_b", "const", "over", "lrec"])
         op = {"op": "compile", "g": g, "name": rng.choice(NAMES), "asmodel": rng.random() < 0.6, "sem": "none", "settings": rng.choice([{}, {}, {"parseinfo": True}])}
         if not op["asmodel"] and rng.random() < 0.4:
-            op["sem"] = rng.choice(["id", "tag", "num"])  # one semantics object shared by all threads through the model
+            op["sem"] = rng.choice(["id", "tag", "num", "eq"])  # one semantics object shared by all threads through the model
         _HCTR[0] += 1
         h = f"m{_HCTR[0]}"
         op["out"] = h
@@ -949,7 +975,7 @@ def gen_spec(seed: int, mode: str | None = None) -> dict:
                 if k < 0.15:
                     call["start"] = rng.choice(start_choices(gg))
                 elif k < 0.3:
-                    call["sem"] = rng.choice(["id", "tag", "num"])
+                    call["sem"] = rng.choice(["id", "tag", "num", "eq"])
                 elif k < 0.4:
                     call["settings"] = rng.choice([{"parseinfo": True}, {"nameguard": False}, {"ignorecase": True}])
                 elif k < 0.5 and not handles[h].get("asmodel"):
